@@ -16,7 +16,7 @@ func (c06) Runs(tier string) int {
 	if tier == "thorough" {
 		return 9000000
 	}
-	return 600000
+	return 400000
 }
 func (c06) Rule() string {
 	return "Condition created by Cond(kw,op,ex) with arbitrary (also invalid) arguments or by Init(); 1-15 calls of SetKeyword/SetOperator/SetExpression/SetErr/SetNoNesting/SetNoPadding/SetParen/SetEncap/SetReadOnly/Init with arguments from accepted and rejected classes (nil, empty, wrong type, nil operator, user operators with empty text/context, built-ins 0..7, stringers, stacks in every dress, conditions); non-trivial = at least one accepted and one rejected argument after the first call and the condition was valid at least once; distinct = hash(call sequence with argument classes and validity)"
